@@ -215,6 +215,13 @@ func (d *Decoder) decodeValue(value reflect.Value) {
 		return
 	}
 
+	// decoded object can be anything registered (it's chosen by crc from the data), not only an implementation
+	// of required type
+	if val == nil || !reflect.TypeOf(val).ConvertibleTo(value.Type()) {
+		d.err = fmt.Errorf("can't use %T as %v", val, value.Type())
+		return
+	}
+
 	value.Set(reflect.ValueOf(val).Convert(value.Type()))
 }
 
